@@ -58,7 +58,7 @@ fn filter_map(
     let (cel, mut bindings) = helpers::setup_context(ctx);
     let mut filtered_list = Vec::new();
 
-    for key in map.into_keys() {
+    for key in helpers::sorted_keys(map).into_iter() {
         let value: CelValue = key.into();
         bindings.bind_param(ident_name, value.clone());
         let interp = Interpreter::new(&cel, &bindings);
